@@ -201,6 +201,18 @@ func c05Push(c *Ctx, g *gameModel) {
 					}
 					rep, rep5x = a3, a5
 					// arguments of the re-count: the node just reached, its side to move, its clock
+					if len(e.Args) == 1 {
+						// a re-count that reads node, side and clock off the board: they are those of the new node when
+						// the board has been advanced before the call (and b.turn ends as the other side)
+						if why := boardAdvancedBefore(g); why != "" {
+							bad = why
+						}
+						if tv, _ := finalOf(st, "&.turn(b)"); tv == nil {
+							bad = "exact re-count reads the side to move off the board, which the path does not set"
+						} else if v, ok := absint.ConstInt(tv); !ok || v != g.otherColour(col) {
+							bad = "exact re-count is not given the side to move of the new node: " + vstrOf(tv)
+						}
+					}
 					if len(e.Args) == 4 {
 						if p2, ok := e.Args[1].(*absint.Ptr); !ok || p2.C != ptr.C {
 							bad = "exact re-count does not start at the node just reached"
@@ -307,8 +319,10 @@ func c05Recount(c *Ctx, g *gameModel) {
 	r := c.R
 	fn := g.identCount
 	where := c.pos(fn.Pos())
-	// parameters by type: node pointer, colour, int limit
-	var nodeP, turnP, limitP *ssa.Parameter
+	// the three inputs by type: node pointer, colour, int limit - parameters, or (a re-count that takes the board
+	// only) what the function reads off the board on entry: b.current, b.turn, b.current.noprogress. The board is
+	// not written by the walk, so those reads stand for the values at the call.
+	var nodeP, turnP, limitP ssa.Value
 	for _, p := range fn.Params[1:] {
 		switch {
 		case types.Identical(p.Type(), types.Typ[types.Int]):
@@ -319,9 +333,46 @@ func c05Recount(c *Ctx, g *gameModel) {
 			turnP = p
 		}
 	}
+	if len(fn.Params) == 1 {
+		writes := false
+		for _, blk := range fn.Blocks {
+			for _, ins := range blk.Instrs {
+				if st, ok := ins.(*ssa.Store); ok {
+					if _, _, base, ok := addrField(st.Addr); ok && stripConv(base) == ssa.Value(fn.Params[0]) {
+						writes = true
+					}
+				}
+			}
+		}
+		recv := paramName(fn.Params[0])
+		for _, ins := range fn.Blocks[0].Instrs {
+			ld, ok := ins.(*ssa.UnOp)
+			if !ok || ld.Op != token.MUL || writes {
+				continue
+			}
+			switch pathExpr(ld) {
+			case recv + ".current":
+				if nodeP == nil {
+					nodeP = ld
+				}
+			case recv + ".turn":
+				if turnP == nil {
+					turnP = ld
+				}
+			case recv + ".current.noprogress":
+				if limitP == nil {
+					limitP = ld
+				}
+			}
+		}
+	}
 	if nodeP == nil || turnP == nil || limitP == nil {
 		r.Undecided("R05-reptail", "exact re-count parameters", where, "", "expected (node, colour, limit)")
 		return
+	}
+	sameIn := func(v, role ssa.Value) bool {
+		v = stripConv(v)
+		return v == role || (role != nil && len(fn.Params) == 1 && pathExpr(v) == pathExpr(role))
 	}
 	// find the loop: phis in a header block
 	var iv *ivInfo
@@ -334,7 +385,7 @@ func c05Recount(c *Ctx, g *gameModel) {
 			}
 			if types.Identical(phi.Type(), types.Typ[types.Int]) {
 				// counter (i) or accumulator (ret)? the counter is compared with the limit
-				if info, ok := inductionVar(phi); ok && info.Cond != nil && stripConv(info.Bound) == ssa.Value(limitP) {
+				if info, ok := inductionVar(phi); ok && info.Cond != nil && sameIn(info.Bound, limitP) {
 					cp := info
 					normaliseExitTest(&cp)
 					iv = &cp
@@ -366,7 +417,7 @@ func c05Recount(c *Ctx, g *gameModel) {
 			if !ok {
 				continue
 			}
-			if phi, ok := stripConv(bo.X).(*ssa.Phi); ok && stripConv(bo.Y) == ssa.Value(limitP) {
+			if phi, ok := stripConv(bo.X).(*ssa.Phi); ok && sameIn(bo.Y, limitP) {
 				if info, ok := inductionVar(phi); ok {
 					op := bo.Op
 					// the test may be written as the exit condition (if i > limit { break }): normalise to the
@@ -399,7 +450,7 @@ func c05Recount(c *Ctx, g *gameModel) {
 	curOK := false
 	if len(cursor.Edges) == 2 {
 		a, b2 := pathExpr(cursor.Edges[0]), pathExpr(cursor.Edges[1])
-		want1 := paramName(nodeP) + ".prev"
+		want1 := pathExpr(nodeP) + ".prev"
 		curOK = (a == want1 && strings.HasSuffix(b2, ".prev") && strings.HasPrefix(b2, "phi:")) || (b2 == want1 && strings.HasSuffix(a, ".prev") && strings.HasPrefix(a, "phi:"))
 	}
 	// distances visited: first comparison at distance 1 when counter = init
@@ -458,9 +509,9 @@ func c05Recount(c *Ctx, g *gameModel) {
 			if strings.HasPrefix(b2, "phi:") {
 				a, b2 = b2, a
 			}
-			posEq = strings.HasPrefix(a, "phi:") && strings.HasSuffix(a, ".pos") && b2 == nodeP.Name()+".pos"
+			posEq = strings.HasPrefix(a, "phi:") && strings.HasSuffix(a, ".pos") && b2 == pathExpr(nodeP)+".pos"
 		case types.Identical(xt, turnP.Type()):
-			parityEq = (bo.X == ssa.Value(turnP) && bo.Y == ssa.Value(parity)) || (bo.Y == ssa.Value(turnP) && bo.X == ssa.Value(parity))
+			parityEq = (sameIn(bo.X, turnP) && bo.Y == ssa.Value(parity)) || (sameIn(bo.Y, turnP) && bo.X == ssa.Value(parity))
 		default:
 			others = append(others, xs+"=="+ys)
 		}
@@ -824,4 +875,37 @@ func normaliseExitTest(iv *ivInfo) {
 			iv.Op = token.GTR
 		}
 	}
+}
+
+
+// boardAdvancedBefore: every store of PushMove's family to the board's current node and side to move dominates the
+// call of the exact re-count, so that a re-count reading them off the board sees the new node's.
+func boardAdvancedBefore(g *gameModel) string {
+	var call ssa.Instruction
+	var stores []ssa.Instruction
+	for _, f := range funcFamily(g.push) {
+		for _, b := range f.Blocks {
+			for _, ins := range b.Instrs {
+				switch x := ins.(type) {
+				case *ssa.Call:
+					if x.Call.StaticCallee() == g.identCount {
+						call = x
+					}
+				case *ssa.Store:
+					if n, name, _, ok := addrField(x.Addr); ok && g.boardT != nil && n.Obj() == g.boardT.Obj() && (name == "current" || name == "turn") {
+						stores = append(stores, x)
+					}
+				}
+			}
+		}
+	}
+	if call == nil || len(stores) < 2 {
+		return "exact re-count reads the board, but the stores that advance it were not found"
+	}
+	for _, st := range stores {
+		if st.Parent() != call.Parent() || !instrDominates(st, call) {
+			return "exact re-count reads node, side and clock off the board before the board is advanced"
+		}
+	}
+	return ""
 }
